@@ -13,11 +13,19 @@ EXPLANATION = (
     "+inf->1 and the constructor going through the sanitising setter, hedge order"
 )
 ASSUMPTIONS = ["numpy.nan_to_num keyword semantics"]
-FLOORS = {"L1": 1, "P5": 5, "P4": 3, "T2": 4, "H1": 1}
+FLOORS = {"L1": 1, "P5": 5, "P4": 3, "T2": 4, "H1": 1, "T2-own": 1, "O9": 2, "F1": 1}
 
 
 def run(check: Check) -> None:
     wiring.modify_rules(check, p5=True, l1=True, h1=True)
     wiring.p4_trigger(check)
     wiring.t2_nonfinite(check)
+    from .c13 import no_inplace_on_handed_values
+
+    no_inplace_on_handed_values(check, ["Rule.trigger"], rule="T2-own")
+    from . import c16
+
+    # the conclusions that modify() iterates are exactly those of the text last loaded: a (re)load replaces the list, it never grows it
+    c16.load_atomicity(check, only="Consequent.load")
+    c16.consequent_automaton(check)
     check.exhaustive_parts.append("one iteration of Consequent.modify under enabled/disabled")
